@@ -2305,10 +2305,13 @@ impl Element {
                 for (i, elem) in ret.iter().enumerate().rev() {
                     match elem {
                         Node::Element(Element {
-                            kind: ElementKind::If { .. },
+                            kind: ElementKind::If { else_branch, .. },
                             ..
                         }) => {
-                            if_index = Some(i);
+                            // a chain that already has its `wx:else` is complete
+                            if else_branch.is_none() {
+                                if_index = Some(i);
+                            }
                             break;
                         }
                         Node::Comment(..) => {}
